@@ -16,7 +16,7 @@ RULE = ("Configurations: observed length 1..10 and 16, 33, 40, 64, run limit non
         "last-window verdict == whole verdict of the final window; window-decidable and len >= k: whole verdict == "
         "conjunction over windows; verdict(s) == verdict(reverse complement). Non-trivial: >= 2 rules configured, or "
         "a GC count exactly on a bound, or a reverse-complement-only motif hit.")
-ASSUMPTIONS = ["0 <= lo <= hi <= 1; motifs are non-empty ACGT strings; GC bounds are the decimal literals shown in "
+ASSUMPTIONS = ["0 <= lo, hi <= 1 (also lo > hi, which no full window can satisfy); motifs are non-empty ACGT strings; GC bounds are the decimal literals shown in "
                "the case (comparisons whose float product is inexact exactly at the boundary are ambiguous)"]
 
 
@@ -32,7 +32,9 @@ def cases(draw, tier):
         if len(extra) <= k:
             cfg = dict(cfg, motifs=list(cfg["motifs"]) + [extra])
     if draw(st.sampled_from([False] * 11 + [True])):
-        cfg = dict(cfg, run=0)  # a legal run limit: every non-empty string has a run longer than 0
+        cfg = dict(cfg, run=0)
+    if cfg["gc"] is not None and draw(st.sampled_from([False] * 9 + [True])):
+        cfg = dict(cfg, gc=[cfg["gc"][1], cfg["gc"][0]])  # lower bound above the upper bound: no window can satisfy it  # a legal run limit: every non-empty string has a run longer than 0
     rng = random.Random(draw(st.integers(0, 2 ** 32 - 1)))
     n = draw(st.one_of(st.integers(k, 3 * k + 2), st.integers(k, 2 * k), st.integers(0, 3 * k + 2)))
     shape = draw(st.sampled_from(["random", "random", "gc_boundary", "gc_boundary", "run", "run", "motif_rc",
@@ -92,6 +94,8 @@ def evaluate(case):
     labels.append("rules=%d" % rules)
     if cfg.get("run") == 0:
         labels.append("run=0")
+    if cfg.get("gc") and float(cfg["gc"][0]) > float(cfg["gc"][1]):
+        labels.append("gc_lower>upper")
     if text.endswith("\n"):
         labels.append("trailing_newline")
     acgt = all(c in o.NUC for c in text)
